@@ -117,3 +117,12 @@ package parser
 //@ func ti/parser.New
 //@   safe
 //@   ensures result.Lexer == lexer && result.Row == 1 && !result.ungetFlg && result.token == 0 && result.FileName == file
+
+//@ # ---- C01: every diagnostic is one line ----
+//@ # A message can quote source text (a string literal with a newline in it); what is recorded must
+//@ # not contain a line break, or the second half would be printed as a line that is neither a
+//@ # diagnostic nor a hint.
+//@ func (*ti/parser.Parser).Fatal
+//@   sitesonly
+//@   callsite[C01] Errorf !strings.Contains(unbox(a_a[2], "string"), "\n")
+//@   witness site:call.0#0 "attr_accessor \"a\nb\"\n" expect "\nb'"
